@@ -85,7 +85,11 @@ func UnmarshalAttribute(attr *api.Attribute) (bgp.PathAttributeInterface, error)
 		var linkLocalNexthop netip.Addr
 		if rf.Afi() == bgp.AFI_IP6 {
 			nexthop = netip.IPv6Unspecified()
-			if len(a.MpReach.NextHops) > 1 {
+		}
+		// A second next hop is the link-local address that accompanies an IPv6 global next hop,
+		// whatever the AFI of the NLRI (IPv4 NLRI with an IPv6 next hop: RFC 8950).
+		if len(a.MpReach.NextHops) > 1 {
+			if first, err := netip.ParseAddr(a.MpReach.NextHops[0]); rf.Afi() == bgp.AFI_IP6 || err == nil && first.Is6() {
 				linkLocalNexthop, err = netip.ParseAddr(a.MpReach.NextHops[1])
 				if err != nil || !linkLocalNexthop.Is6() {
 					return nil, fmt.Errorf("invalid nexthop: %s", a.MpReach.NextHops[1])
